@@ -16,6 +16,7 @@ EXPLANATION = (
     "C01.b (rejection inventory): every Err constructed in the claim-unpacking functions is classified by the provenance (A4) of the innermost condition it is control-dependent on; "
     "an Err whose condition derives only from the emptiness/length of the plain container parameter itself (not from an element, digest or disclosure) rejects honest data the issuer can produce. "
     "C01.c: on the found edge of each digest lookup every path to the next iteration / Ok passes through the insert or push of the unpacked value, or an Err. "
+    "C01.d: the `cnf` member is added only on the holder_key == Some edge, and self.holder_key is assigned from this call's holder_key argument on every path before the payload is assembled. "
     "The round-trip equality over all claim trees, strategies and selections is a statement about runtime values and is not decided."
 )
 ASSUMPTIONS = [
@@ -33,6 +34,7 @@ def run(ctx):
     clause_a(ctx, fx, U)
     clause_b(ctx, fx, U)
     clause_c(ctx, fx, U)
+    clause_d(ctx, fx)
 
 
 def clause_a(ctx, fx, U):
@@ -154,6 +156,15 @@ def clause_b(ctx, fx, U):
 
 def clause_c(ctx, fx, U):
     ctx.floor("C01.c", "digest lookups", len(U.lookups), 2)
+    for fn in U.fns:
+        if fn.kind == "closure" or not common.next_loops(fn):
+            continue
+        ee = common.loop_early_exits(fn)
+        if ee:
+            lp, e = ee[0]
+            ctx.finding("C01.c", fn, "walk-complete", "the unpacking loop can be left early with Ok (line %s): the remaining members/elements/digests are silently dropped from the verified claims" % e["line"], line=fn.term(lp.bb).get("line"))
+        else:
+            ctx.ok("C01.c", fn, "walk-complete", "every iteration goes back to the loop header or leaves through an Err")
     for (fn, b, n) in U.lookups:
         fv = vals(fn)
         line = fn.term(b).get("line")
@@ -219,3 +230,61 @@ def op_local(fn, sb):
         if s["k"] == "assign" and "discriminant" in s["rv"]:
             return s["rv"]["discriminant"]["local"]
     return 0
+
+
+def clause_d(ctx, fx):
+    """'plus the holder-key confirmation claim when a holder key was bound': the cnf member is inserted iff self.holder_key is Some,
+    and self.holder_key is assigned from THIS call's holder_key argument on every path before the payload is assembled"""
+    import imodel
+    import callgraph as cg
+    issue = fx.fn(imodel.ISSUE)
+    if issue is None:
+        ctx.missing("C01.d", imodel.ISSUE, "not found")
+        return
+    iv = vals(issue)
+    # where cnf is inserted
+    g = cg.build(fx)
+    reach = cg.reachable_from(g, [imodel.ISSUE])
+    ins = []
+    for name in sorted(reach):
+        f = fx.fns[name]
+        fv = vals(f)
+        for b, t in f.calls():
+            n = fv.call_node(b)
+            if t.get("name") in ("entry", "insert") and t.get("self_adt") == "serde_json::Map" and len(n.kids) > 1 and const_value(n.kids[1]) == "cnf":
+                ins.append((f, b, n))
+    if not ins:
+        ctx.finding("C01.d", issue, "cnf-inserted", "no `cnf` member is ever added to the payload: a bound holder key would not be confirmed")
+        return
+    for (f, b, n) in ins:
+        some_edges = []
+        for (sb, subj) in common.discr_switches(f):
+            s_ = peel(subj)
+            if s_.kind == "field" and s_.d.get("name") == "holder_key":
+                t = f.term(sb)
+                listed = set(v for (v, _) in t["targets"])
+                for (v, tgt) in t["targets"]:
+                    if v == 1:
+                        some_edges.append((sb, tgt))
+                if 1 not in listed:
+                    some_edges.append((sb, t["otherwise"]))
+        if some_edges and guarded(f, b, some_edges):
+            ctx.ok("C01.d", f, "cnf-iff-key", "`cnf` is added only on the holder_key == Some edge", line=f.term(b).get("line"))
+        else:
+            ctx.finding("C01.d", f, "cnf-iff-key", "`cnf` can be added although no holder key is set (or is not tied to self.holder_key)", line=f.term(b).get("line"))
+    ws = common.struct_field_writes(fx, imodel.ISTRUCT, "holder_key") or []
+    okw = False
+    for w in ws:
+        v = peel(w["value"]) if w["value"] is not None else None
+        if w["how"] == "init" and v is not None and v.kind == "agg" and v.d["agg"].get("variant") == "None":
+            continue
+        if w["how"] == "assign" and w["fn"] is issue and v is not None and v.kind == "param" and v.d.get("name") == "holder_key":
+            users = [b for b, t in issue.calls() if t.get("resolved_local") and any(f.name in cg.reachable_from(g, [t["resolved"]]) for (f, _, _) in ins)]
+            if users and all(bb not in cfg.reachable(issue, [0], removed_blocks=[w["bb"]]) for bb in users):
+                okw = True
+            continue
+        ctx.finding("C01.d", w["fn"], "holder-key-writer", "self.holder_key is written from something other than this call's holder_key argument, or only on some paths (%s)" % (vstr(v, 3) if v is not None else w["how"]), line=w["line"])
+    if okw:
+        ctx.ok("C01.d", issue, "holder-key-provenance", "self.holder_key is assigned from this call's holder_key argument on every path before the payload is assembled")
+    else:
+        ctx.finding("C01.d", issue, "holder-key-provenance", "the holder key confirmed in `cnf` is not (on every path) the one passed to this call: a credential issued without a key can carry an earlier holder's cnf")
